@@ -931,7 +931,7 @@ func checkSign(c sigCase) (err error) {
 		for _, kc := range append(others, 0, 1, 3, 4, 254, 255) {
 			if kc := kc; !seen[kc] {
 				seen[kc] = true
-				add("key of another class (one bit of the class changed, or IN / CH / HS / NONE / ANY / 0), everything else identical", func(w *world) bool { w.KeyClass = kc; return true })
+				add(fmt.Sprintf("key of class %d instead of %d (one bit of the class changed, or IN / CH / HS / NONE / ANY / 0), everything else identical", kc, signed.KeyClass), func(w *world) bool { w.KeyClass = kc; return true })
 			}
 		}
 	}
